@@ -5,7 +5,7 @@ CONSTANTS
   Postfixes <- PfFamily
   Configs <- C17Configs
   Seeds = {1, 2}
-  Textures = {"random", "nonuniform"}
+  Textures = {"random", "nonuniform", "layout"}
   Flows = {"ss_xz", "gen3d"}
   Pars <- C17Pars
   Callbacks = {}
